@@ -499,20 +499,24 @@ fn query_entries(ctx: &mut SyncContext, src_root_details: EntryDetails, dest_roo
         // Wait for either src or dest to send us a response with an entry
         match memory_bound_channel::select_ready(ctx.src_comms.get_receiver(), ctx.dest_comms.get_receiver()) {
             // Source entry
-            0 => match ctx.src_comms.receive_response()? {
-                Response::Entry((p, src_entry)) => process_src_entry(ctx, p, src_entry,
+            // (note that select_ready can report a channel as ready spuriously, so we mustn't block waiting
+            // for a response, as it might never come if that side has already sent everything)
+            0 => match ctx.src_comms.try_receive_response()? {
+                Some(Response::Entry((p, src_entry))) => process_src_entry(ctx, p, src_entry,
                     &mut src_entries, &dest_entries, dest_platform_differentiates_symlinks,
                     &mut to_delete, &mut to_copy),
-                Response::EndOfEntries => src_done = true,
-                r => return Err(format!("Unexpected response getting entries from src: {:?}", r)),
+                Some(Response::EndOfEntries) => src_done = true,
+                Some(r) => return Err(format!("Unexpected response getting entries from src: {:?}", r)),
+                None => (), // Nothing there after all - wait again
             },
             // Dest entry
-            1 => match ctx.dest_comms.receive_response()? {
-                Response::Entry((p, dest_entry)) => process_dest_entry(ctx, p, dest_entry,
+            1 => match ctx.dest_comms.try_receive_response()? {
+                Some(Response::Entry((p, dest_entry))) => process_dest_entry(ctx, p, dest_entry,
                     &src_entries, &mut dest_entries, dest_platform_differentiates_symlinks,
                     &mut to_delete, &mut to_copy),
-                Response::EndOfEntries => dest_done = true,
-                r => return Err(format!("Unexpected response getting entries from dest: {:?}", r)),
+                Some(Response::EndOfEntries) => dest_done = true,
+                Some(r) => return Err(format!("Unexpected response getting entries from dest: {:?}", r)),
+                None => (), // Nothing there after all - wait again
             },
             _ => panic!("Invalid index"),
         }
